@@ -714,9 +714,10 @@ func (p *Parameters) ReadFrom(r io.Reader) (n int64, err error) {
 
 		bytes := make([]byte, size)
 
+		// A single Read may return fewer bytes than requested without an error.
 		var inc int
-		if inc, err = r.Read(bytes); err != nil {
-			return n + int64(inc), fmt.Errorf("io.Reader.Read: %w", err)
+		if inc, err = io.ReadFull(r, bytes); err != nil {
+			return n + int64(inc), fmt.Errorf("io.ReadFull: %w", err)
 		}
 		return n + int64(inc), p.UnmarshalJSON(bytes)
 
